@@ -26,6 +26,8 @@ import ClarabelProofs.Lemmas.StepCones
 import ClarabelProofs.Lemmas.StepGenPow
 import ClarabelProofs.Lemmas.StepPsd
 import ClarabelProofs.Lemmas.StepQuadForm
+import ClarabelProofs.Lemmas.StepInitPoint
+import ClarabelProofs.Lemmas.StepPass
 import Mathlib.Tactic.NormNum
 import Mathlib.Tactic.Positivity
 
@@ -1284,5 +1286,146 @@ theorem residual_contraction_affine_array' (A : Matrix (Fin m) (Fin n) ℝ) (Pc 
     (KktSystem.quadForm_dense_real Pc hPc hPm hPn hPt) mask q b rx rz rτ vars rhs a x1 z1 x2 z2 hm hq hb hvx hvs hvz hrx hrz hx1 hz1 hx2 hz2 hτ hint hrX hrZ hrT hrhs h1x h1z h2x h2z hden
 
 end array_qf
+
+/-! ## Round 6: one accepted pass of the whole-solver model (zero / nonnegative / second-order cones)
+
+`Solver.pass` (`ClarabelModel/Solver/Solve.lean`) is the model of one pass of `loop { … }` in
+`solve()` whose whole trajectories the `solve.full` channel ties bit-for-bit to the implementation.
+The `_array` theorems above are about `Step.lean` (zero + nonnegative cones); the two theorems below
+state the same facts for that function, second-order cones included.  Hypotheses: the size
+invariant `PassShape` of the state, `P` stored as an upper triangle, and exactness of the two reduced
+solves whose results the pass leaves in `kktsystem.{x2,z2}` (constant right-hand side `(−q, b)`,
+solved in `kktsystem.update`) and `kktsystem.{x1,z1}` (the combined right-hand side), for the matrix
+`[P Aᵀ; A −Hs]`, `Hs = Solver.hsMat cones` the dense matrix of the scaled cones' `mul_Hs`
+(`Solver.mulHs_hsMat`). -/
+section pass
+open Clarabel.Solver
+
+/-- [R] **One accepted pass of the whole-solver model takes the Newton step.**  If
+`pass st L = .ok (true, L')` (the pass fell through to `add_step`) and the two reduced solves were
+exact, the direction left in `L'.S.stepLhs` solves the full five-block linearised system of the
+homogeneous embedding at the old iterate, with right-hand side `(1−σ)·(rx, rz, rτ)`, `σ = L'.sigma`,
+and the new iterate is `add_step(α)` of the old one along it, `α = L'.alpha`. -/
+theorem pass_is_newton_step {st : Settings ℝ} {L L' : LoopSt ℝ} {n m : ℕ} (hS : PassShape L.S n m)
+    (hPt : L.S.data.P.isTriu = true) (hp : pass st L = .ok (true, L'))
+    (hτ : L.S.variables.τ ≠ 0)
+    (h1x : KktSystem.symMat L.S.data.P n *ᵥ toFn L'.S.kktsystem.x1 n
+        + (denseA L.S.data.A m n)ᵀ *ᵥ toFn L'.S.kktsystem.z1 m = toFn L'.S.stepRhs.x n)
+    (h1z : denseA L.S.data.A m n *ᵥ toFn L'.S.kktsystem.x1 n
+        - hsMat L'.S.cones m *ᵥ toFn L'.S.kktsystem.z1 m
+        = toFn L'.S.kktsystem.workConic m - toFn L'.S.stepRhs.z m)
+    (h2x : KktSystem.symMat L.S.data.P n *ᵥ toFn L'.S.kktsystem.x2 n
+        + (denseA L.S.data.A m n)ᵀ *ᵥ toFn L'.S.kktsystem.z2 m = -toFn L.S.data.q n)
+    (h2z : denseA L.S.data.A m n *ᵥ toFn L'.S.kktsystem.x2 n
+        - hsMat L'.S.cones m *ᵥ toFn L'.S.kktsystem.z2 m = toFn L.S.data.b m)
+    (hden : KktSystem.tauDen L.S.variables.κ L.S.variables.τ
+        (toFn L.S.data.q n ⬝ᵥ toFn L'.S.kktsystem.x2 n) (toFn L.S.data.b m ⬝ᵥ toFn L'.S.kktsystem.z2 m)
+        (((-1 : ℝ) • toFn L'.S.kktsystem.x2 n + (1 : ℝ) • ((1 / L.S.variables.τ) • toFn L.S.variables.x n)) ⬝ᵥ
+          KktSystem.symMat L.S.data.P n *ᵥ ((-1 : ℝ) • toFn L'.S.kktsystem.x2 n
+            + (1 : ℝ) • ((1 / L.S.variables.τ) • toFn L.S.variables.x n)))
+        (toFn L'.S.kktsystem.x2 n ⬝ᵥ KktSystem.symMat L.S.data.P n *ᵥ toFn L'.S.kktsystem.x2 n) ≠ 0) :
+    IsNewtonStep (KktSystem.symMat L.S.data.P n) (denseA L.S.data.A m n) (hsMat L'.S.cones m)
+        (toFn L.S.data.q n) (toFn L.S.data.b m) (toFn L.S.variables.x n) L.S.variables.τ L.S.variables.κ
+        ((1 - L'.sigma) • resX (KktSystem.symMat L.S.data.P n) (denseA L.S.data.A m n) (toFn L.S.data.q n)
+          (toFn L.S.variables.x n) (toFn L.S.variables.z m) L.S.variables.τ)
+        ((1 - L'.sigma) • resZ (denseA L.S.data.A m n) (toFn L.S.data.b m) (toFn L.S.variables.x n)
+          (toFn L.S.variables.s m) L.S.variables.τ)
+        ((1 - L'.sigma) * resT (KktSystem.symMat L.S.data.P n) (toFn L.S.data.q n) (toFn L.S.data.b m)
+          (toFn L.S.variables.x n) (toFn L.S.variables.z m) L.S.variables.τ L.S.variables.κ)
+        (toFn L'.S.kktsystem.workConic m) L'.S.stepRhs.κ
+        ⟨toFn L'.S.stepLhs.x n, toFn L'.S.stepLhs.s m, toFn L'.S.stepLhs.z m, L'.S.stepLhs.τ,
+          L'.S.stepLhs.κ⟩
+    ∧ toFn L'.S.variables.x n = toFn L.S.variables.x n + L'.alpha • toFn L'.S.stepLhs.x n
+    ∧ toFn L'.S.variables.s m = toFn L.S.variables.s m + L'.alpha • toFn L'.S.stepLhs.s m
+    ∧ toFn L'.S.variables.z m = toFn L.S.variables.z m + L'.alpha • toFn L'.S.stepLhs.z m
+    ∧ L'.S.variables.τ = L.S.variables.τ + L'.alpha * L'.S.stepLhs.τ
+    ∧ L'.S.variables.κ = L.S.variables.κ + L'.alpha * L'.S.stepLhs.κ := by
+  obtain ⟨res, ys, an⟩ := pass_step_anatomy hS hp
+  have hH : ∀ v : Array ℝ, v.size = m → (mulHsT L'.S.cones ys v).size = m
+      ∧ toFn (mulHsT L'.S.cones ys v) m = hsMat L'.S.cones m *ᵥ toFn v m := by
+    intro v hv
+    obtain ⟨r, hr, hrs, hrv⟩ := mulHs_hsMat an.conesFull an.numel ys v an.ys_size hv
+    rw [mulHsT_ok hr]
+    exact ⟨hrs, hrv⟩
+  obtain ⟨lhs, wx, wz, hrun, hN⟩ := solveAssemble_is_newton (KktSystem.symMat L.S.data.P n)
+    (KktSystem.symMat_transpose _ n) (denseA L.S.data.A m n) (hsMat L'.S.cones m)
+    (KktSystem.quadForm L.S.data.P) (mulHsT L'.S.cones ys)
+    (KktSystem.quadForm_dense_real L.S.data.P hS.canP hS.Pm hS.Pn hPt) hH L.S.data.q L.S.data.b
+    (toStep L.S.variables) (toStep L'.S.stepRhs) L'.S.kktsystem.workConic L'.S.kktsystem.x1
+    L'.S.kktsystem.z1 L'.S.kktsystem.x2 L'.S.kktsystem.z2 hS.q hS.b hS.vx an.rhs_x_size an.rhs_z_size
+    an.wc an.x1 an.z1 an.x2 an.z2 hτ h1x h1z h2x h2z hden
+  rw [an.assemble] at hrun
+  simp only [Except.ok.injEq, Prod.mk.injEq] at hrun
+  obtain ⟨e, _, _⟩ := hrun
+  subst e
+  obtain ⟨_, _, _, ex, es, ez, eτ, eκ⟩ := addStep_dense an.step hS.vx hS.vs hS.vz
+  refine ⟨?_, ex, es, ez, eτ, eκ⟩
+  have e1 : toFn (toStep L'.S.stepRhs).x n = (1 - L'.sigma) • resX (KktSystem.symMat L.S.data.P n)
+      (denseA L.S.data.A m n) (toFn L.S.data.q n) (toFn L.S.variables.x n) (toFn L.S.variables.z m)
+      L.S.variables.τ := by
+    show toFn L'.S.stepRhs.x n = _
+    rw [an.rhs_x, an.rx]; rfl
+  have e2 : toFn (toStep L'.S.stepRhs).z m = (1 - L'.sigma) • resZ (denseA L.S.data.A m n)
+      (toFn L.S.data.b m) (toFn L.S.variables.x n) (toFn L.S.variables.s m) L.S.variables.τ := by
+    show toFn L'.S.stepRhs.z m = _
+    rw [an.rhs_z, an.rz]; rfl
+  have e3 : (toStep L'.S.stepRhs).τ = (1 - L'.sigma) * resT (KktSystem.symMat L.S.data.P n)
+      (toFn L.S.data.q n) (toFn L.S.data.b m) (toFn L.S.variables.x n) (toFn L.S.variables.z m)
+      L.S.variables.τ L.S.variables.κ := by
+    show L'.S.stepRhs.τ = _
+    rw [an.rhs_τ, an.rτ]; rfl
+  rw [e1, e2, e3] at hN
+  exact hN
+
+/-- [R] **Residual contraction for one accepted pass of the whole-solver model** (zero,
+nonnegative and second-order cones).  Under the hypotheses of `pass_is_newton_step` (exactness of
+the two reduced solves), the residuals `(rx, rz)` of the new iterate are `1 − α(1−σ)` times those
+of the old one and `rτ` likewise up to the exact `P`-remainder, `α = L'.alpha`, `σ = L'.sigma`. -/
+theorem pass_residual_contraction {st : Settings ℝ} {L L' : LoopSt ℝ} {n m : ℕ}
+    (hS : PassShape L.S n m) (hPt : L.S.data.P.isTriu = true) (hp : pass st L = .ok (true, L'))
+    (hτ : L.S.variables.τ ≠ 0) (hτ' : L'.S.variables.τ ≠ 0)
+    (h1x : KktSystem.symMat L.S.data.P n *ᵥ toFn L'.S.kktsystem.x1 n
+        + (denseA L.S.data.A m n)ᵀ *ᵥ toFn L'.S.kktsystem.z1 m = toFn L'.S.stepRhs.x n)
+    (h1z : denseA L.S.data.A m n *ᵥ toFn L'.S.kktsystem.x1 n
+        - hsMat L'.S.cones m *ᵥ toFn L'.S.kktsystem.z1 m
+        = toFn L'.S.kktsystem.workConic m - toFn L'.S.stepRhs.z m)
+    (h2x : KktSystem.symMat L.S.data.P n *ᵥ toFn L'.S.kktsystem.x2 n
+        + (denseA L.S.data.A m n)ᵀ *ᵥ toFn L'.S.kktsystem.z2 m = -toFn L.S.data.q n)
+    (h2z : denseA L.S.data.A m n *ᵥ toFn L'.S.kktsystem.x2 n
+        - hsMat L'.S.cones m *ᵥ toFn L'.S.kktsystem.z2 m = toFn L.S.data.b m)
+    (hden : KktSystem.tauDen L.S.variables.κ L.S.variables.τ
+        (toFn L.S.data.q n ⬝ᵥ toFn L'.S.kktsystem.x2 n) (toFn L.S.data.b m ⬝ᵥ toFn L'.S.kktsystem.z2 m)
+        (((-1 : ℝ) • toFn L'.S.kktsystem.x2 n + (1 : ℝ) • ((1 / L.S.variables.τ) • toFn L.S.variables.x n)) ⬝ᵥ
+          KktSystem.symMat L.S.data.P n *ᵥ ((-1 : ℝ) • toFn L'.S.kktsystem.x2 n
+            + (1 : ℝ) • ((1 / L.S.variables.τ) • toFn L.S.variables.x n)))
+        (toFn L'.S.kktsystem.x2 n ⬝ᵥ KktSystem.symMat L.S.data.P n *ᵥ toFn L'.S.kktsystem.x2 n) ≠ 0) :
+    resX (KktSystem.symMat L.S.data.P n) (denseA L.S.data.A m n) (toFn L.S.data.q n)
+        (toFn L'.S.variables.x n) (toFn L'.S.variables.z m) L'.S.variables.τ
+      = (1 - L'.alpha * (1 - L'.sigma)) • resX (KktSystem.symMat L.S.data.P n) (denseA L.S.data.A m n)
+          (toFn L.S.data.q n) (toFn L.S.variables.x n) (toFn L.S.variables.z m) L.S.variables.τ
+    ∧ resZ (denseA L.S.data.A m n) (toFn L.S.data.b m) (toFn L'.S.variables.x n)
+        (toFn L'.S.variables.s m) L'.S.variables.τ
+      = (1 - L'.alpha * (1 - L'.sigma)) • resZ (denseA L.S.data.A m n) (toFn L.S.data.b m)
+          (toFn L.S.variables.x n) (toFn L.S.variables.s m) L.S.variables.τ
+    ∧ resT (KktSystem.symMat L.S.data.P n) (toFn L.S.data.q n) (toFn L.S.data.b m)
+        (toFn L'.S.variables.x n) (toFn L'.S.variables.z m) L'.S.variables.τ L'.S.variables.κ
+      = (1 - L'.alpha * (1 - L'.sigma)) * resT (KktSystem.symMat L.S.data.P n) (toFn L.S.data.q n)
+          (toFn L.S.data.b m) (toFn L.S.variables.x n) (toFn L.S.variables.z m) L.S.variables.τ
+          L.S.variables.κ
+        + L'.alpha ^ 2 * ((toFn L'.S.stepLhs.x n - L'.S.stepLhs.τ • ((1 / L.S.variables.τ) • toFn L.S.variables.x n)) ⬝ᵥ
+            KktSystem.symMat L.S.data.P n *ᵥ (toFn L'.S.stepLhs.x n
+              - L'.S.stepLhs.τ • ((1 / L.S.variables.τ) • toFn L.S.variables.x n)))
+          / L'.S.variables.τ := by
+  obtain ⟨hN, ex, es, ez, eτ, eκ⟩ := pass_is_newton_step hS hPt hp hτ h1x h1z h2x h2z hden
+  have h := residual_contraction (KktSystem.symMat L.S.data.P n) (KktSystem.symMat_transpose _ n)
+    (denseA L.S.data.A m n) (hsMat L'.S.cones m) (toFn L.S.data.q n) (toFn L.S.data.b m)
+    (toFn L.S.variables.x n) (toFn L.S.variables.s m) (toFn L.S.variables.z m) L.S.variables.τ
+    L.S.variables.κ L'.sigma L'.alpha (toFn L'.S.kktsystem.workConic m) L'.S.stepRhs.κ
+    ⟨toFn L'.S.stepLhs.x n, toFn L'.S.stepLhs.s m, toFn L'.S.stepLhs.z m, L'.S.stepLhs.τ,
+      L'.S.stepLhs.κ⟩ hτ (by rw [← eτ]; exact hτ') hN
+  rw [ex, es, ez, eτ, eκ]
+  exact h
+
+end pass
 
 end Clarabel.C06
